@@ -228,8 +228,10 @@ var c15Extensions = []struct {
 	aliases           []string
 }{
 	// registered the way IANA spells e.g. video/H264: with capitals in the name
-	{"", "x/C15-Root", ".c15a", []string{"x/c15-root-alias1", "x/c15-root-alias2"}},
-	{"text/plain", "X/c15-Text", ".c15b", []string{"x/c15-text-alias"}},
+	// alias lists are given out of lexical order (a caller's order is arbitrary;
+	// a lookup that assumes sorted aliases must not lose any of them)
+	{"", "x/C15-Root", ".c15a", []string{"x/c15-root-zeta", "x/c15-root-alpha", "x/c15-root-mid"}},
+	{"text/plain", "X/c15-Text", ".c15b", []string{"x/c15-text-b", "x/c15-text-a"}},
 	{"application/zip", "x/c15-zip", ".c15c", []string{"x/c15-zip-alias"}},
 }
 
